@@ -144,6 +144,9 @@ CLAIMS = {
     ),
 }
 
+# properties whose cases run in-process without process-wide state (harness/src/fuzzing.rs::TAPE_FUZZABLE)
+TAPE_FUZZABLE = ["C02", "C04", "C06", "C11", "C12", "C13", "C14", "C15", "C16", "C17", "C19"]
+
 PENDING_REASON = "check not built yet in this session (work in progress; see DESIGN.md section 5 for the planned generated-input check)"
 
 def main():
@@ -155,6 +158,10 @@ def main():
         if not c:
             na.append({"property_id": pid, "reason": PENDING_REASON})
             continue
+        note, technique = c["note"], c["technique"]
+        if pid in TAPE_FUZZABLE:
+            note += " The thorough tier ends with a coverage-guided stage: the libFuzzer target fuzz/tape_prop mutates the choice tape itself (16 processes x 60 000 runs, own seeds and corpora, seed corpus of random full-length tapes), the same generator and oracle run inside the target, and an artifact counts only after the strict replay (kverif bytes) has confirmed it; it is then shrunk and saved as an ordinary replay file."
+            technique += "; thorough tier: plus coverage-guided fuzzing (libFuzzer) of the same choice tape with the same oracle in the target"
         checks.append({
             "property_id": pid,
             "quick_cmd": f"./check {pid} quick",
@@ -163,8 +170,8 @@ def main():
             "replay_cmd_template": f"./check {pid} --replay {{path}}",
             "engine": "kverif",
             "level_claimed": {"category": c["level"], "text": c["text"], "design_ref": c["design"]},
-            "level_note": c["note"],
-            "technique": c["technique"],
+            "level_note": note,
+            "technique": technique,
         })
     manifest = {
         "version": 1,
@@ -180,7 +187,7 @@ def main():
             "name": "kverif",
             "path": "/verif/harness",
             "serves_properties": [c["property_id"] for c in checks],
-            "kind_free_text": "Rust crate: proptest-driven choice tape (Vec<u32>) decoded into cases, per-property oracle, in-house tape shrinker, 16 worker processes, replay files, evidence writer",
+            "kind_free_text": "Rust crate: proptest-driven choice tape (Vec<u32>) decoded into cases, per-property oracle, in-house tape shrinker, 16 worker processes, replay files, evidence writer; two libFuzzer targets under /verif/fuzz (c18_decode: raw file bytes; tape_prop: the choice tape of 11 properties) run as the last stage of the thorough tiers",
         }],
         "checks": checks,
         "not_applicable": na,
